@@ -1537,6 +1537,17 @@ def op_json_text(scn):
         inject["dorder"] = [c.idx[nm] for nm in obj.to_dict()["script"].keys()]
     return {"text": text, "_inject": inject, "_kinds": kinds, "_loads_ok": loads_ok, "prefix_not_none": not_none}
 
+
+@op("json_str")
+def op_json_str(scn):
+    """CPython's own decoder / encoder on one string literal"""
+    try:
+        v = json.loads(scn["text"])
+        dec = v if isinstance(v, str) else None
+    except Exception:
+        dec = None
+    return {"decoded": dec, "encoded": json.dumps(scn["name"])}
+
 @op("bounds")
 def op_bounds(scn):
     from chipfiring import CFCombinatorics as CC
